@@ -23,9 +23,13 @@ Record facts := {
   pool_close_drops : bool;      (* ThreadPoolServer.close closes the connections still in fd_to_conn *)
   pool_fail_discards : bool;    (* ThreadPoolServer._accept_method removes the socket from self.clients when building the connection failed *)
   fork_parent_keeps : bool;     (* ForkingServer's parent keeps the accepted socket in self.clients (so that close() reaches it) *)
-  pool_catches_base : bool      (* ThreadPoolServer._serve_requests catches a BaseException that is not an Exception (drops that connection) *)
+  pool_catches_base : bool;     (* ThreadPoolServer._serve_requests catches a BaseException that is not an Exception (drops that connection) *)
+  worker_tracks_served : bool;  (* _authenticate_and_serve_client keeps in self.clients the socket it actually serves (the one the authenticator returned) *)
+  accept_survives_oserror : bool;  (* Server.accept carries on after an OS error of accept() that is not the listener failing (EMFILE, ENFILE, ECONNABORTED ...) *)
+  accept_rechecks_closed : bool    (* Server.accept looks at _closed again after clients.add(sock): a close() running meanwhile cannot miss the socket *)
 }.
-Record cfg := { kind : skind; fx : facts; has_auth : bool; class_svc : bool; nworkers : nat; batch : nat }.
+Record cfg := { kind : skind; fx : facts; has_auth : bool; class_svc : bool; nworkers : nat; batch : nat;
+                auth_replaces : bool   (* the authenticator returns another socket object than it was given (TLS wrapping) *) }.
 
 (* ---- control skeletons of the methods the model is written against, as emitted by tools/pygen/server.py
         (proofs/ServerTie.v: the regenerated lists equal these) ---- *)
@@ -33,8 +37,8 @@ Inductive sinstr :=
 | CIfClosedReturn | CSetClosed | CClearActive | CUnregisterGuarded | CListenerShutdownGuarded | CListenerClose
 | CForClientsShutdownClose | CClientsClear
 | AWhileActive | AAccept | ATimeoutContinue | AEintrContinue | AErrorRaiseEOF | AElseBreak | AIfInactiveReturn
-| ASetBlocking | AClientsAdd | ACallAcceptMethod
-| WTry | WIfAuthenticator | WAuthenticate | WAuthErrorReturn | WServeClient | WReraise | WFinallyShutdownGuarded | WFinallyDiscard
+| ASetBlocking | AClientsAdd | ACallAcceptMethod | AResourceErrorSleepContinue | ARecheckClosed
+| WTry | WIfAuthenticator | WAuthenticate | WAuthErrorReturn | WTrackReplacedSocket | WServeClient | WReraise | WFinallyShutdownGuarded | WFinallyDiscard
 | VPeerName | VTry | VConfig | VConnect | VHandle | VFinallyPass | HServeAll
 | SListen | SRegister | STryWhileActiveAccept | SExceptEOFPass | SExceptKeyboardInterrupt | SFinallyClose
 | OTryServeInline | OFinallyClose | TSpawnWorker
@@ -52,10 +56,13 @@ Inductive sinstr :=
 
 Definition close_prog := [CIfClosedReturn; CSetClosed; CClearActive; CUnregisterGuarded; CListenerShutdownGuarded; CListenerClose;
                           CForClientsShutdownClose; CClientsClear].                                  (* server_close *)
-Definition accept_prog := [AWhileActive; AAccept; ATimeoutContinue; AEintrContinue; AErrorRaiseEOF; AElseBreak; AIfInactiveReturn;
-                           ASetBlocking; AClientsAdd; ACallAcceptMethod].                             (* EAccept: guard + accept *)
-Definition worker_prog := [WTry; WIfAuthenticator; WAuthenticate; WAuthErrorReturn; WServeClient; WReraise; WFinallyShutdownGuarded;
-                           WFinallyDiscard].                                                          (* work / finish_own *)
+Definition accept_prog_of (survives rechecks : bool) :=
+  [AWhileActive; AAccept; ATimeoutContinue; AEintrContinue] ++ (if survives then [AResourceErrorSleepContinue] else [])
+  ++ [AErrorRaiseEOF; AElseBreak; AIfInactiveReturn; ASetBlocking; AClientsAdd] ++ (if rechecks then [ARecheckClosed] else [])
+  ++ [ACallAcceptMethod].                                                                             (* EAccept / EAcceptFail *)
+Definition worker_prog_of (tracks : bool) :=
+  [WTry; WIfAuthenticator; WAuthenticate; WAuthErrorReturn] ++ (if tracks then [WTrackReplacedSocket] else [])
+  ++ [WServeClient; WReraise; WFinallyShutdownGuarded; WFinallyDiscard].                              (* work / finish_own *)
 Definition serve_client_prog := [VPeerName; VTry; VConfig; VConnect; VHandle; VFinallyPass].
 Definition handle_prog := [HServeAll].
 Definition start_prog := [SListen; SRegister; STryWhileActiveAccept; SExceptEOFPass; SExceptKeyboardInterrupt; SFinallyClose].
@@ -85,6 +92,8 @@ Definition remove_inactive_prog := [IUnregisterGuarded].
 
 Inductive auth := AuthOk | AuthFail | AuthStall.   (* what the client does about authentication: pass, fail, never finish *)
 Inductive req := QRoot | QBump (o : oid) | QMake (o : oid) | QStr (o : oid) | QDel (o : oid) | QClose
+| QStall   (* not a request: a complete message whose processing makes the server WAIT for this client: a nested request the client
+              never answers, a reply the client never reads.  The reader blocks as on an unfinished frame. *)
 | QKill.   (* not a request: a message whose processing ends in a BaseException that is not an Exception, e.g. an unsolicited reply
               carrying a remote reference -> nested HANDLE_INSPECT -> answered with an exception record for SystemExit *)
 Inductive reply := POid (o : oid) | PVal (n : nat) | POk | PErr.
@@ -202,7 +211,7 @@ Definition fresh_conn : conn :=
 
 (* ---- what a reader makes of the bytes in a connection's buffer ---- *)
 Inductive nxt := NEmpty | NBlock | NBad (rest : list byte) | NNop (rest : list byte) | NReq (q : req) (rest : list byte)
-| NKill (rest : list byte).
+| NKill (rest : list byte) | NStall (rest : list byte).
 
 Section Server.
 Variable decomp : list byte -> option (list byte).      (* zlib.decompress: None = zlib.error *)
@@ -221,7 +230,7 @@ Definition next_input (buf : list byte) : nxt :=
            match (if Byte.eqb fl x00 then Some payload else decomp payload) with
            | None => NBad rest
            | Some [] => NNop rest                       (* Connection.serve: `if not data: return False` *)
-           | Some d => match decode d with Some QKill => NKill rest | Some q => NReq q rest | None => NBad rest end
+           | Some d => match decode d with Some QKill => NKill rest | Some QStall => NStall rest | Some q => NReq q rest | None => NBad rest end
            end
   | _ => NBlock
   end.
@@ -239,7 +248,7 @@ Definition serve_req (c : cid) (v : svc) (tb : list oid) (q : req) : svc * list 
   | QStr o => (v, tb, if omem o tb then POk else PErr)
   | QDel o => if omem o tb then (v, orm1 o tb, POk) else (v, tb, PErr)
   | QClose => (v, tb, POk)
-  | QKill => (v, tb, PErr)
+  | QKill | QStall => (v, tb, PErr)
   end.
 Definition is_close (q : req) : bool := match q with QClose => true | _ => false end.
 
@@ -294,7 +303,8 @@ Definition accept (c : cid) (rest : list cid) (s : st) : st :=
   | OneShot => with_busy s0 (Some c)
   | Forking => if fork_parent_keeps (fx K) then s0 else with_clients s0 (rm c (clients s0))
   | Pool =>
-      if has_auth K then
+      if gone (conns s c) && match a with AuthStall => true | _ => false end then pool_reject c s0    (* getpeername / the authenticator fails *)
+      else if has_auth K then
         match a with
         | AuthOk => pool_register c s0
         | AuthFail => pool_reject c s0
@@ -303,17 +313,26 @@ Definition accept (c : cid) (rest : list cid) (s : st) : st :=
       else pool_register c s0
   end.
 
+Definition is_stall (a : auth) : bool := match a with AuthStall => true | _ => false end.
+(* a socket-replacing authenticator: unless the worker registers the socket it serves, Server.clients is left with the dead original *)
+Definition loose : bool :=
+  match kind K with
+  | Threaded | OneShot => has_auth K && auth_replaces K && negb (worker_tracks_served (fx K))
+  | _ => false
+  end.
+Definition track_served (c : cid) (s : st) : st := with_clients s (if loose then rm c (clients s) else clients s).
+
 (* ---- the worker of a connection served on its own (thread / child / inline), or the inline authenticator of the pool ---- *)
 Definition work (c : cid) (s : st) : option st :=
   let k := conns s c in
   match stg k with
   | Own =>
       if negb (authd k) then
-        (* first step: authenticate if configured, then Service._connect *)
-        if shut k then Some (finish_own c s)
+        (* first step: authenticate if configured, then Service._connect (getpeername first: a peer that reset is gone) *)
+        if shut k || (gone k && is_stall (abeh k)) then Some (finish_own c s)
         else if has_auth K then
           match abeh k with
-          | AuthOk => Some (set_conn s c (k_authd k))
+          | AuthOk => Some (track_served c (set_conn s c (k_authd k)))
           | AuthFail => Some (finish_own c s)
           | AuthStall => if gone k then Some (finish_own c s) else None
           end
@@ -325,7 +344,7 @@ Definition work (c : cid) (s : st) : option st :=
                if is_close q then Some (finish_own c s1) else Some s1
            | NBad rest | NKill rest => Some (finish_own c (set_conn s c (close_conn (k_inb k rest))))
            | NNop rest => Some (set_conn s c (k_inb k rest))
-           | NBlock | NEmpty => if gone k then Some (finish_own c (set_conn s c (close_conn k))) else None
+           | NBlock | NEmpty | NStall _ => if gone k then Some (finish_own c (set_conn s c (close_conn k))) else None
            end
   | Authing =>
       if gone k || shut k then Some (with_busy (pool_reject c s) None) else None
@@ -374,7 +393,7 @@ Definition serve_step (w : nat) (s : st) : option st :=
            | NKill rest =>
                if pool_catches_base (fx K) then Some (drop c (set_worker (set_conn s c (k_inb k rest)) w None))
                else Some (set_worker (set_conn s c (k_inb k rest)) w (Some (c, O)))   (* escapes both handlers: the worker thread ends *)
-           | NBlock => if gone k then Some (drop c (set_worker s w None)) else None
+           | NBlock | NStall _ => if gone k then Some (drop c (set_worker s w None)) else None
            | NEmpty => if gone k then Some (drop c (set_worker s w None)) else Some (add_inactive (set_worker s w None) c)
            end
   | _ => None
@@ -390,6 +409,7 @@ Inductive event :=
 | EPoll (c : cid) (hup : bool)       (* pool: the polling thread reports c (readable, or hung up) *)
 | ETake (w : nat)                    (* pool: idle worker w takes the head of the active queue *)
 | EServe (w : nat)                   (* pool: worker w does one Connection.poll() on the connection it holds *)
+| EAcceptFail                        (* accept() raises an OS error that is neither a timeout nor EINTR/EAGAIN (descriptor limit, aborted connection) *)
 | EClose.                            (* Server.close() *)
 
 Definition step (e : event) (s : st) : option st :=
@@ -413,8 +433,21 @@ Definition step (e : event) (s : st) : option st :=
   | EPoll c hup => match kind K with Pool => poll_step c hup s | _ => None end
   | ETake w => match kind K with Pool => take_step w s | _ => None end
   | EServe w => match kind K with Pool => serve_step w s | _ => None end
+  | EAcceptFail =>
+      if active s && lopen s && is_none (busy s)
+      then Some (if accept_survives_oserror (fx K) then s else server_close s)      (* start(): except EOFError: pass; finally: close() *)
+      else None
   | EClose => Some (server_close s)
   end.
+
+(* The window in Server.accept between `if not self.active: return` and `self.clients.add(sock)`: a close() that runs to completion in
+   it does not see the socket.  [late_register c s] is the second half of accept() for a connection c the listener had already handed
+   out, run on the state s that close() left.  (The transition system itself takes accept() as one step, which is faithful on a tree
+   that looks at _closed again after clients.add.) *)
+Definition late_register (c : cid) (s : st) : st :=
+  if accept_rechecks_closed (fx K) && closed s
+  then set_conn s c (k_stage (k_shut (conns s c)) Finished)
+  else accept c (backlog s) s.
 
 Definition init : st :=
   {| active := true; closed := false; lopen := true; busy := None; clients := []; fdmap := []; pollset := []; queue := [];
@@ -461,6 +494,7 @@ Definition req_of_sx (x : sx) : option req :=
   | SL [SI 4; o] => Some (QDel (oid_of_sx o))
   | SL [SI 5] => Some QClose
   | SL [SI 6] => Some QKill
+  | SL [SI 7] => Some QStall
   | _ => None
   end%Z.
 Definition sx_oid (o : oid) : sx := SL [snat (fst o); snat (snd o)].
@@ -472,6 +506,7 @@ Definition event_of_sx (x : sx) : option event :=
   match x with
   | SL [SI 0; c; a] => Some (EConnect (sx_nat c) (auth_of_z (sx_z a)))
   | SL [SI 8] => Some EAccept
+  | SL [SI 9] => Some EAcceptFail
   | SL [SI 1; c; SB b] => Some (ESend (sx_nat c) b)
   | SL [SI 2; c; ab] => Some (ELeave (sx_nat c) (sx_bool ab))
   | SL [SI 3; c] => Some (EWork (sx_nat c))
@@ -523,10 +558,11 @@ Definition sx_state (s : st) : sx :=
      (2 ev)  is the event enabled? (no state change) *)
 Definition run_server (x : sx) : sx :=
   match x with
-  | SL [SL [kd; f1; f2; f3; f4; au; cl; nw; bt]; SL dtbl; SL ztbl; SL script] =>
+  | SL [SL [kd; f1; f2; f3; f4; f5; f6; f7; au; cl; nw; bt; ar]; SL dtbl; SL ztbl; SL script] =>
       let K := {| kind := kind_of_z (sx_z kd);
-                  fx := {| pool_close_drops := sx_bool f1; pool_fail_discards := sx_bool f2; fork_parent_keeps := sx_bool f3; pool_catches_base := sx_bool f4 |};
-                  has_auth := sx_bool au; class_svc := sx_bool cl; nworkers := sx_nat nw; batch := sx_nat bt |} in
+                  fx := {| pool_close_drops := sx_bool f1; pool_fail_discards := sx_bool f2; fork_parent_keeps := sx_bool f3; pool_catches_base := sx_bool f4;
+                           worker_tracks_served := sx_bool f5; accept_survives_oserror := sx_bool f6; accept_rechecks_closed := sx_bool f7 |};
+                  has_auth := sx_bool au; class_svc := sx_bool cl; nworkers := sx_nat nw; batch := sx_nat bt; auth_replaces := sx_bool ar |} in
       let dt := map (fun e => match e with SL [SB a; q] => (a, req_of_sx q) | _ => ([], None) end) dtbl in
       let zt := map (fun e => match e with SL [SB a; SB b] => (a, b) | _ => ([], []) end) ztbl in
       let decode := fun b => match tlookup dt b with Some (Some q) => Some q | _ => None end in
